@@ -31,6 +31,7 @@ type c12Cfg struct {
 	maxViews int
 	depth    int
 	canonVal bool
+	sparse   bool // long buffers: a sparse alphabet of lengths and ranges
 }
 
 func c12Replay(cs c12Case, checkFrom int) (w *world, fs []F) {
@@ -46,7 +47,23 @@ func c12Replay(cs c12Case, checkFrom int) (w *world, fs []F) {
 func c12Ops(w *world, cfg c12Cfg) []wop {
 	var ops []wop
 	nv := len(w.views)
-	if nv < cfg.maxViews {
+	if nv < cfg.maxViews && cfg.sparse {
+		K := cfg.maxK
+		for _, lk := range [][2]int{{0, K}, {K / 2, K}, {K, K}, {1, 2}} {
+			ops = append(ops, wop{K: "alloc", V: nv, A: lk[0], B: lk[1]})
+		}
+		for v := range w.views {
+			cp := w.views[v].m.capacity()
+			pts := sortedUnique([]int64{0, 1, int64(cp / 2), int64(cp - 1), int64(cp)})
+			for _, s := range pts {
+				for _, e := range pts {
+					if s >= 0 && s <= e && int(e) <= cp {
+						ops = append(ops, wop{K: "slice", V: v, A: int(s), B: int(e)})
+					}
+				}
+			}
+		}
+	} else if nv < cfg.maxViews {
 		for K := 0; K <= cfg.maxK; K++ {
 			for L := 0; L <= K; L++ {
 				ops = append(ops, wop{K: "alloc", V: nv, A: L, B: K})
@@ -99,13 +116,18 @@ func c12Key(w *world, canonVal bool) (key, alias [16]byte) {
 			ids[v.m.st] = id
 			order = append(order, v.m.st)
 		}
-		buf = append(buf, byte(id), byte(v.m.off), byte(v.m.n))
-		abuf = append(abuf, byte(id), byte(v.m.off), byte(v.m.n), byte(len(v.m.st.cells)))
+		buf = append(buf, byte(id))
+		buf = binary.LittleEndian.AppendUint16(buf, uint16(v.m.off))
+		buf = binary.LittleEndian.AppendUint16(buf, uint16(v.m.n))
+		abuf = append(abuf, byte(id))
+		abuf = binary.LittleEndian.AppendUint16(abuf, uint16(v.m.off))
+		abuf = binary.LittleEndian.AppendUint16(abuf, uint16(v.m.n))
+		abuf = binary.LittleEndian.AppendUint16(abuf, uint16(len(v.m.st.cells)))
 	}
 	buf = append(buf, 0xff)
 	ren := map[int64]byte{0: 0} // zero keeps its identity
 	for _, st := range order {
-		buf = append(buf, byte(len(st.cells)))
+		buf = binary.LittleEndian.AppendUint16(buf, uint16(len(st.cells)))
 		for _, x := range st.cells {
 			if canonVal {
 				r, ok := ren[x]
@@ -238,25 +260,28 @@ func init() {
 			fam := []int{dyn.Int8, dyn.Uint16, dyn.Float64}
 			if c.Quick() {
 				for _, t := range fam {
-					cfgs = append(cfgs, c12Cfg{"small/" + tn(t) + "/C1", t, 1, 2, 4, 5, true})
-					cfgs = append(cfgs, c12Cfg{"small/" + tn(t) + "/C2", t, 2, 2, 4, 5, true})
+					cfgs = append(cfgs, c12Cfg{"small/" + tn(t) + "/C1", t, 1, 2, 4, 5, true, false})
+					cfgs = append(cfgs, c12Cfg{"small/" + tn(t) + "/C2", t, 2, 2, 4, 5, true, false})
 				}
 				for t := 0; t < dyn.NB; t++ {
-					cfgs = append(cfgs, c12Cfg{"all-types/" + tn(t) + "/C2", t, 2, 2, 3, 3, true})
+					cfgs = append(cfgs, c12Cfg{"all-types/" + tn(t) + "/C2", t, 2, 2, 3, 3, true, false})
 				}
-				cfgs = append(cfgs, c12Cfg{"full/int16/C3", dyn.Int16, 3, 4, 6, 3, true})
+				cfgs = append(cfgs, c12Cfg{"full/int16/C3", dyn.Int16, 3, 4, 6, 3, true, false})
+				cfgs = append(cfgs, c12Cfg{"long/float32/C2 (40 frames, sparse ranges)", dyn.Float32, 2, 40, 4, 4, true, true})
 			} else {
 				for _, t := range fam {
-					cfgs = append(cfgs, c12Cfg{"small/" + tn(t) + "/C1", t, 1, 2, 4, 6, true})
-					cfgs = append(cfgs, c12Cfg{"small/" + tn(t) + "/C2", t, 2, 2, 4, 6, true})
+					cfgs = append(cfgs, c12Cfg{"small/" + tn(t) + "/C1", t, 1, 2, 4, 6, true, false})
+					cfgs = append(cfgs, c12Cfg{"small/" + tn(t) + "/C2", t, 2, 2, 4, 6, true, false})
 				}
 				for t := 0; t < dyn.NB; t++ {
-					cfgs = append(cfgs, c12Cfg{"all-types/" + tn(t) + "/C2", t, 2, 2, 4, 4, true})
+					cfgs = append(cfgs, c12Cfg{"all-types/" + tn(t) + "/C2", t, 2, 2, 4, 4, true, false})
 				}
-				cfgs = append(cfgs, c12Cfg{"c1-deep/int8", dyn.Int8, 1, 2, 3, 7, true})
+				cfgs = append(cfgs, c12Cfg{"c1-deep/int8", dyn.Int8, 1, 2, 3, 7, true, false})
 				for C := 1; C <= 3; C++ {
-					cfgs = append(cfgs, c12Cfg{fmt.Sprintf("full/int16/C%d", C), dyn.Int16, C, 4, 6, 4, true})
+					cfgs = append(cfgs, c12Cfg{fmt.Sprintf("full/int16/C%d", C), dyn.Int16, C, 4, 6, 4, true, false})
 				}
+				cfgs = append(cfgs, c12Cfg{"long/float32/C2 (40 frames, sparse ranges)", dyn.Float32, 2, 40, 4, 5, true, true})
+				cfgs = append(cfgs, c12Cfg{"long/int8/C3 (300 frames, sparse ranges)", dyn.Int8, 3, 300, 4, 4, true, true})
 			}
 			var states, trans, replays int64
 			var report []map[string]any
@@ -273,8 +298,8 @@ func init() {
 					"new_states_per_level": r.levelStates, "distinct_aliasing_patterns": r.aliasPatterns})
 			}
 			// data-independence re-check: the lowest levels again without value canonicalisation
-			q := c12BFS(c, c12Cfg{"recheck-canon", dyn.Int16, 2, 2, 3, 3, true})
-			raw := c12BFS(c, c12Cfg{"recheck-raw", dyn.Int16, 2, 2, 3, 3, false})
+			q := c12BFS(c, c12Cfg{"recheck-canon", dyn.Int16, 2, 2, 3, 3, true, false})
+			raw := c12BFS(c, c12Cfg{"recheck-raw", dyn.Int16, 2, 2, 3, 3, false, false})
 			if q.failed != raw.failed || q.states > raw.states || q.depthDone != raw.depthDone {
 				if !c.CapHit() {
 					c.InternalError("value canonicalisation re-check failed: quotient %d states (failed=%v), raw %d states (failed=%v)", q.states, q.failed, raw.states, raw.failed)
